@@ -5,7 +5,7 @@ open PedVerif.Checker
 #print axioms total
 #print axioms wrap_ne_escape
 #print axioms cfg_catchesAll
-#print axioms cfg_strGuard
+#print axioms cfg_strBranch
 open PedVerif.Call
 #print axioms wrapper_adds_nothing
 #print axioms wrapper_escapes_bodyMentionsStaticmethod
